@@ -805,6 +805,8 @@ class Eval:
             folded = self._fold_enum_operator(env, b, pred_vals)
             if folded is None:
                 folded = self._fold_bool_diamond(env, local, proj, b, pred_vals)
+            if folded is None:
+                folded = self._fold_option_diamond(env, local, proj, b, pred_vals)
             if folded is not None:
                 real = [folded]
         if len(real) == 1:
@@ -873,6 +875,50 @@ class Eval:
         if vf == T:
             return ("bin", "LOr", ("un", "Not", c), vt)
         return None
+
+    def _fold_option_diamond(self, env, local, proj, b, pred_vals):
+        """`if c { Some(v) } else { None }` (either way round) as a value: present exactly when the condition holds — the
+        same term `c.then_some(v)` evaluates to, instead of an unconditioned merge of `None` and `Some(v)`"""
+        body = env.body
+        if proj or local >= len(body.locals) or not (body.locals[local].get("ty") or "").startswith("std::option::Option<"):
+            return None
+        dom = body.dominators().get(b)
+        cands = [d for d in (dom or ()) if d != b]
+        if not cands or len(pred_vals) != 2:
+            return None
+        s_ = max(cands, key=lambda d: len(body.dominators()[d]))
+        term = body.blocks[s_]["term"]
+        if term["k"] != "switch" or len(term["targets"]) != 1 or term["targets"][0][0] != 0:
+            return None
+        arms = {False: term["targets"][0][1], True: term["otherwise"]}
+        vals = {}
+        for truth, tg in arms.items():
+            cur, steps, prev = tg, 0, s_
+            while cur != b and steps < 16:
+                nx = body.succ(cur)
+                if len(nx) != 1 or len(body.pred(cur)) != 1:
+                    return None
+                prev, cur = cur, nx[0]
+                steps += 1
+            if cur != b or prev not in pred_vals:
+                return None
+            vals[truth] = pred_vals[prev]
+        if len(vals) != 2:
+            return None
+        none_side = [tr for tr, v in vals.items() if v == ("none",)]
+        if len(none_side) != 1:
+            return None
+        some = vals[not none_side[0]]
+        if some[0] != "opt":
+            return None
+        try:
+            c = self.operand(env, term["op"], (s_, None))
+        except RecursionError:
+            return None
+        cond = c if not none_side[0] is True and none_side[0] is False else ("un", "Not", c)
+        # none on the false arm -> present iff c ; none on the true arm -> present iff !c
+        cond = c if none_side[0] is False else ("un", "Not", c)
+        return ("opt", some[1], frozenset(some[2]) | frozenset([("pred", cond)]))
 
     def _fold_bool_chain(self, env, s_, b, pred_vals):
         """`a && b && c` / `a || b || c` as a value: all paths from the first test to the merge block but one deliver the
